@@ -16,8 +16,23 @@ for _m in sorted(pkgutil.iter_modules([_here]), key=lambda m: m.name):
     mod = importlib.import_module("checks.reg." + _m.name)
     COMPONENTS.update(getattr(mod, "COMPONENTS", {}))
     for k, v in getattr(mod, "PROPERTIES", {}).items():
-        PROPERTIES[k] = v
-    META.update(getattr(mod, "META", {}))
+        v = dict(v)
+        v.setdefault("coq_files", ["Properties/%s.v" % k])
+        if k not in PROPERTIES:
+            PROPERTIES[k] = v
+        else:  # several groups contribute parts of one property: merge
+            old = PROPERTIES[k]
+            old["components"] = old["components"] + [c for c in v["components"] if c not in old["components"]]
+            old["coq_files"] = old["coq_files"] + [f for f in v["coq_files"] if f not in old["coq_files"]]
+            old["rule"] = old.get("rule", "") + " || " + v.get("rule", "")
+            old["modelled_not_verified"] = old.get("modelled_not_verified", []) + v.get("modelled_not_verified", [])
+    for k, v in getattr(mod, "META", {}).items():
+        if k not in META:
+            META[k] = dict(v)
+        else:
+            for f in ("text", "note", "technique"):
+                if v.get(f) and v[f] not in META[k].get(f, ""):
+                    META[k][f] = META[k].get(f, "") + " || " + v[f]
 
 ALL_IDS = [json.loads(l)["id"] for l in open(os.path.join(os.path.dirname(os.path.abspath(__file__)), "..", "properties.jsonl"))]
 NOT_APPLICABLE = [
